@@ -201,16 +201,6 @@ Definition cmd_no_global (c : cmdline) : cmdline :=
 Definition cmd_no_files (c : cmdline) : cmdline :=
   {| c_globs := c_globs c; c_types := c_types c; c_ignore_files := []; c_global := c_global c |}.
 
-(* Known finding GitlinkExcludeNoRequire: with --no-require-git the code never looks at what `.git` is;
-   it takes dir/.git for the git directory, so for a gitfile root (linked worktree) it finds no
-   info/exclude.  The world as the code reads it: *)
-Definition di_unread_exclude (f : lowflags) (d : dirinfo) : dirinfo :=
-  if f_no_require_git f then match di_dotgit d with GitFile => di_no_exclude d | _ => d end else d.
-Definition gitlink_exclude_world (f : lowflags) (w : world) : world := map_dirs (di_unread_exclude f) w.
-(* the class: --no-require-git is given and some directory of the chain is a gitfile root *)
-Definition GitlinkExcludeNoRequire (f : lowflags) (w : world) : Prop :=
-  f_no_require_git f = true /\ exists d, In d (w_above w ++ w_below w) /\ di_dotgit d = GitFile.
-
 Definition erase_dot := map_dirs di_no_dot.
 Definition erase_exclude := map_dirs di_no_exclude.
 Definition erase_global := map_cmd cmd_no_global.
